@@ -310,6 +310,7 @@ def gen_world(r, knobs=None):
         pipelines.append({'classes': cids, 'slots': slots, 'twin': twin})
     # configs: 1-3 per pipeline, bottom-up so fills exist
     configs = []
+    twin_pairs = []
     cfg_of_pipe = {pi: [] for pi in range(n_pipes)}
     for pi in range(n_pipes):
         for v in range(r.choice([1, 1, 2, 3]) if pi not in single_cfg else 1):
@@ -331,11 +332,18 @@ def gen_world(r, knobs=None):
                 ci2 = len(configs)
                 configs.append({'name': f'cfg{ci2}', 'pipe': pi, 'values': dict(vals), 'fills': f2})
                 cfg_of_pipe[pi].append(ci2)
+                twin_pairs.append((ci, ci2))
     # roots: prefer configs of late pipelines (bigger chains)
     roots = []
     n_roots = r.randint(*k['n_roots'])
-    for _ in range(n_roots):
+    forced_roots = []
+    if twin_pairs and n_roots >= 2 and r.random() < 0.7:
+        # the two config trees that differ only in which config sits under which namespace, both on one data directory
+        forced_roots = list(r.choice(twin_pairs))
+    for ri_ in range(n_roots):
         ci = r.choice(cfg_of_pipe[n_pipes - 1] if r.random() < 0.6 else range(len(configs)))
+        if ri_ < len(forced_roots):
+            ci = forced_roots[ri_]
         root = {'cfg': ci, 'overrides': None}
         if r.random() < k['p_override']:
             root['overrides'] = gen_overrides(r, {'classes': classes, 'pipelines': pipelines, 'configs': configs}, root, k.get('no_for_ns', False))
